@@ -199,6 +199,37 @@ def run(chk, runner_ok):
     if model:
         outs = model.call([(3, [items, i]) for items, i in pcases])
         chk.correspond("KEYED-positional", pcases, impl, outs)
+    # ---- one AddRemove object used repeatedly -----------------------------
+    # iterating twice, or setting a new right/left side after an iteration, must give what a
+    # fresh object gives for the current (left, right)
+    from compare_locales.compare.utils import AddRemove
+    rcases, rimpl = [], []
+    for n in range(chk.n(400, 4000)):
+        uni = list(range(rng.randint(1, 6)))
+        ar = AddRemove()
+        left = rng.sample(uni, rng.randint(0, len(uni)))
+        right = rng.sample(uni, rng.randint(0, len(uni)))
+        ar.set_left(list(left))
+        ar.set_right(list(right))
+        for step in range(rng.randint(2, 5)):
+            op = rng.choice(["iter", "iter", "right", "left"])
+            if op == "right":
+                right = rng.sample(uni, rng.randint(0, len(uni)))
+                ar.set_right(iter(right))
+            elif op == "left":
+                left = rng.sample(uni, rng.randint(0, len(uni)))
+                ar.set_left(list(left))
+            out = [[LABEL[a], k] for a, k in ar]
+            rcases.append((list(left), list(right)))
+            rimpl.append(out)
+            chk.count(("reuse", n, step, tuple(left), tuple(right)))
+            if out != expected_addremove(left, right):
+                chk.fail("addremove-reuse", {"left": left, "right": right, "step": step,
+                                             "note": "same AddRemove object used repeatedly"},
+                         {"got": out, "expected": expected_addremove(left, right)})
+    if model:
+        outs = model.call([(0, [l, r]) for l, r in rcases])
+        chk.correspond("ADDREMOVE-reuse", rcases, rimpl, outs)
     # ---- hash-seed independence ---------------------------------------
     sample = [(l, r) for l, r in cases[:: max(1, len(cases) // 300)]]
     prog = ("import json,sys\nfrom harness.props.c20 import impl_addremove\n"
